@@ -286,6 +286,37 @@ func corpusItems() ([]corpusItem, error) {
 	a.op(bc.BIND, 0).raw(0x11)
 	a.op(bc.POPN, 2).op(bc.RET)
 	hand("h05-every-opcode.bcb", "every opcode 0..30 at least once", handFile("h05", a.code, cs, nil), s("-14\nfalse\nfalse\ntrue\n"))
+	// instructions that fail after their operands were read: the error position is that of the last byte read
+	// (every code byte of a hand-assembled file has a position of its own)
+	var wide []any
+	wide = append(wide, "t", "")
+	for k := 2; k < 2300; k++ {
+		wide = append(wide, fmt.Sprintf("name%d", k))
+	}
+	a = &asm{}
+	a.op(bc.DEFBLOCK, 0, 1).op(bc.GETFIELD, 241).op(bc.POP).op(bc.ENDBLOCK).op(bc.RET)
+	hand("h07-getfield-unresolved-2-byte-operand.bcb", "GETFIELD of an unresolved name through a 2-byte operand", handFile("h07", a.code, wide, []int{3}), s(""))
+	a = &asm{}
+	a.op(bc.DEFBLOCK, 0, 1).op(bc.GETFIELD, 2290).op(bc.POP).op(bc.ENDBLOCK).op(bc.RET)
+	hand("h07-getfield-unresolved-3-byte-operand.bcb", "GETFIELD of an unresolved name through a 3-byte operand", handFile("h07", a.code, wide, []int{2, 5}), s(""))
+	a = &asm{}
+	a.op(bc.NOP).op(bc.NOP).op(bc.BIND, 0).raw(0x11).op(bc.RET)
+	hand("h08-bind-no-blocks.bcb", "BIND without any block of the type", handFile("h08", a.code, []any{"t"}, []int{1}), s(""))
+	a = &asm{}
+	a.op(bc.DEFBLOCK, 0, 1).op(bc.ENDBLOCK).op(bc.DEFBLOCK, 0, 1).op(bc.ENDBLOCK).op(bc.BIND, 0).raw(0x11).op(bc.RET)
+	hand("h09-bind-one-of-two.bcb", "BIND of exactly one block where two exist", handFile("h09", a.code, []any{"t", ""}, []int{4, 8}), s(""))
+	a = &asm{}
+	a.op(bc.DEFBLOCK, 0, 1).op(bc.ENDBLOCK).op(bc.BIND, 0).raw(0x11).op(bc.NOP).op(bc.BIND, 0).raw(0x21).op(bc.RET)
+	hand("h10-repeated-bind.bcb", "a second BIND (warning with a position)", handFile("h10", a.code, []any{"t", ""}, []int{5}), s(""))
+	a = &asm{}
+	a.op(bc.CONST, 2295).op(bc.NEG).op(bc.PRINT).op(bc.RET)
+	hand("h11-neg-of-string-after-3-byte-operand.bcb", "NEG applied to a string constant fetched through a 3-byte operand", handFile("h11", a.code, wide, []int{1, 2, 3}), s(""))
+	a = &asm{}
+	a.op(bc.ONE).op(bc.PRINT).op(bc.ONE).op(bc.ZERO).op(bc.DIV).op(bc.PRINT).op(bc.RET)
+	hand("h12-division-by-zero.bcb", "output, then a runtime error at a one-byte instruction", handFile("h12", a.code, nil, []int{2, 4}), s("1\n"))
+	a = &asm{}
+	a.op(bc.DEFBLOCK, 0, 1).op(bc.DEFBLOCK, 2, 1).op(bc.ENDBLOCK).op(bc.DEFBLOCK, 2, 1).op(bc.ENDBLOCK).op(bc.ENDBLOCK).op(bc.RET)
+	hand("h13-duplicate-child.bcb", "two children with the same key", handFile("h13", a.code, []any{"t", "", "c"}, []int{6}), s(""))
 	// minor version 0
 	f0 := &bc.File{Major: 1, Minor: 0, Name: "v10", Code: []byte{bc.ONE, bc.PRINT, bc.RET}, Positions: []int{1, 1, 1}}
 	hand("h06-version-1.0.bcb", "a file declaring minor version 0", bc.Encode(f0), s("1\n"))
@@ -330,7 +361,7 @@ func init() {
 		Level: "exploration",
 		Rule: "offline checker over recorded artefacts + independent codec: (a) every file of the committed corpus (recorded from the pinned build, plus hand-assembled files for what the compiler cannot emit: negative ints/bools/nil constants, NOP, LOOP, every bind byte, 1/2/3-byte varint operands, every opcode 0..30, version 1.0) is loaded through a whole-slice and a one-byte reader and executed; disassembly, output, warnings, blocks, binding and error must equal the recording; the independent decoder must parse it and the independent encoder reproduce it; " +
 			"(b) the dump of every generated program must be parsed by the independent decoder (written from the format comment and the sqlite4 varint document: magic FC 6C, version, name, code, typed constants, positions, line table, big-endian 16-bit jump operands) into exactly the program's in-memory parts, and re-encoded byte for byte; the instruction stream must decode with the recorded opcode numbering. " +
-			"distinct = corpus file name or hash of dump; non-trivial = file loaded / dump decoded The fresh-dump part also covers the size-directed list (every varint class boundary, 160 kB of code, 70000 lines, a source beyond 16 MiB): decode, re-encode, and the dump must load.",
+			"distinct = corpus file name or hash of dump; non-trivial = file loaded / dump decoded The fresh-dump part also covers the size-directed list (every varint class boundary, 160 kB of code, 70000 lines, a source beyond 16 MiB): decode, re-encode, and the dump must load. Also: hand-assembled files whose instructions fail after their operands were read (GETFIELD through 2- and 3-byte operands, BIND without / with too many blocks, a repeated BIND warning, NEG of a string, division by zero, a duplicate child) with a position of its own on every code byte and line feeds between them: the recorded line:column is that of the last byte read; size-directed dumps are also written into a destination that takes only part of each write (Dump must report it or the destination must hold the whole dump).",
 		Assumptions:   []string{"corpus/expect.json was recorded from the pinned build's behaviour (cross-checked against a build of commit d0f6a51, see DESIGN §7)", "internal/bc is the written-down meaning of format 1.1"},
 		MinNontrivial: 40,
 		Run: func(c *core.Ctx) {
@@ -371,6 +402,18 @@ func init() {
 							} else if _, _, lerr, lpan, _ := observeLoaded(bytes.NewReader(d), "x"); lerr != nil || lpan != "" {
 								c.Violation("fresh-dump-does-not-load", fmt.Sprintf("a fresh dump (%s, %d bytes) that follows the layout is refused by the loader: %v %s", f.tag, len(d), lerr, lpan), nil)
 							} else {
+								// a destination that takes only part of a write: Dump reports it, or everything was taken
+								for _, lim := range []int{1, 100, 1000, 4095, 4096, 5000} {
+									w := &partWriter{limit: lim}
+									var e2 error
+									pan2, _ := protect(func() { e2 = p.Dump(w) })
+									c.Eval(1)
+									if pan2 != "" || (e2 == nil && !bytes.Equal(w.got, d)) {
+										c.Violation("dump-truncated-silently", fmt.Sprintf("Dump (%s) into a destination taking at most %d bytes per write returned %v %s, the destination holds %d of %d bytes", f.tag, lim, e2, pan2, len(w.got), len(d)), nil)
+										break
+									}
+									c.Count("dumps_into_a_destination_taking_partial_writes", 1)
+								}
 								c.Count("size_directed_dumps_decoded_reencoded_loaded", 1)
 								c.Nontrivial(core.Hash(d))
 							}
@@ -420,6 +463,52 @@ func init() {
 			}
 		},
 	})
+}
+
+// partWriter takes at most limit bytes of each write and says so in the count only.
+type partWriter struct {
+	limit int
+	got   []byte
+}
+
+func (w *partWriter) Write(p []byte) (int, error) {
+	n := min(len(p), w.limit)
+	w.got = append(w.got, p[:n]...)
+	return n, nil
+}
+
+// CorpusCrossCheck replays every corpus file through a whole-slice reader with the build at hand and
+// prints the files whose meaning differs from the recording (used to replay the corpus against a build
+// of the pinned commit: `bclverif corpuscheck`).
+func CorpusCrossCheck(dir string) (same, differ int) {
+	data, err := os.ReadFile(filepath.Join(dir, "expect.json"))
+	if err != nil {
+		fmt.Println(err)
+		return 0, 1
+	}
+	var exp []corpusExpect
+	if err := json.Unmarshal(data, &exp); err != nil {
+		fmt.Println(err)
+		return 0, 1
+	}
+	for _, e := range exp {
+		raw, err := os.ReadFile(filepath.Join(dir, e.File))
+		if err != nil {
+			fmt.Println(err)
+			differ++
+			continue
+		}
+		got, pan := corpusRun(raw, e.File, false)
+		got.File, got.Origin, got.Source, got.Note = e.File, e.Origin, e.Source, e.Note
+		if pan != "" || got != e {
+			fmt.Printf("DIFFERS %s: panic=%q\n  got      %+v\n  recorded %+v\n", e.File, pan, got, e)
+			differ++
+			continue
+		}
+		same++
+	}
+	fmt.Printf("corpus cross-check: %d identical, %d different\n", same, differ)
+	return same, differ
 }
 
 func c14File(c *core.Ctx, e corpusExpect, raw []byte) {
